@@ -94,6 +94,8 @@ func (calc *RewardCalculator) Calculate() (amt *balance.Amount, err error) {
 	if err != nil {
 		// never happen by design
 		logger.Errorf("Year rewards burned out unexpectedly, year= %v", year+1)
+		// the cache must not outlive a failed calculation, a restarted node would not have it
+		calc.cached = NewRewardCached()
 		return
 	}
 
